@@ -278,6 +278,11 @@ fn pipe_case(rt: &tokio::runtime::Runtime, dir: &Path, case: &Value, n: usize) -
 					looked.entry((c.z, c.y, c.x)).or_insert_with(|| look(c.z, c.x, c.y));
 				}
 			}
+			// every coordinate the stream DELIVERED is looked up as well
+			for it in sres["res"].as_array().unwrap() {
+				let (z, x, y) = (it[0].as_u64().unwrap() as u8, it[1].as_u64().unwrap() as u32, it[2].as_u64().unwrap() as u32);
+				looked.entry((z, y, x)).or_insert_with(|| look(z, x, y));
+			}
 			streams.push(sres);
 		}
 	}
